@@ -314,6 +314,19 @@ class Program:
                                  kind=kind, decorators=decos)
                         cls.methods[m.name] = f
                         self.funcs[f.qualname] = f
+                    elif isinstance(m, ast.Assign) and len(m.targets) == 1 and isinstance(m.targets[0], ast.Name):
+                        # `name = staticmethod(module_function)` / `name = module_function`: the method is that function under another name
+                        v = m.value
+                        kind = "method"
+                        if isinstance(v, ast.Call) and isinstance(v.func, ast.Name) and v.func.id in ("staticmethod", "classmethod") and len(v.args) == 1 and not v.keywords:
+                            kind, v = v.func.id, v.args[0]
+                        if isinstance(v, ast.Name) and m.targets[0].id not in cls.methods:
+                            src = [x for x in mod.tree.body if isinstance(x, ast.FunctionDef) and x.name == v.id]
+                            if len(src) == 1:
+                                f = Func(f"{mod.name}.{st.name}.{m.targets[0].id}", m.targets[0].id, mod, src[0], cls=cls, kind=kind,
+                                         decorators=[kind] if kind != "method" else [])
+                                cls.methods[m.targets[0].id] = f
+                                self.funcs[f.qualname] = f
             elif isinstance(st, (ast.Import, ast.ImportFrom)):
                 self._index_import(mod, st)
             elif isinstance(st, ast.Assign):
